@@ -348,3 +348,61 @@ Proof.
   - pose proof (stored_ok s v Hb) as [_ H]. exact H.
   - split; [exact HsA|]. intros d a Hg. exact (well_keyed h d a Hg).
 Qed.
+
+(* ---------- delegator shares and delegation records: untouched unless a redelegation out of v is pending ---------- *)
+Definition DSF (X : Z -> Coins) (D0 : KMap Delegation) (R0 : KMap unit) (s : State) : Prop :=
+  ksorted (valinfos s) /\ (forall w, vi_dshares (vinfo_or_empty s w) = X w) /\ delegations s = D0 /\ redelidx s = R0.
+Lemma DSF_f X D0 R0 : forall s s', (valinfos s', delegations s', redelidx s') = (valinfos s, delegations s, redelidx s) -> DSF X D0 R0 s -> DSF X D0 R0 s'.
+Proof. unfold DSF, vinfo_or_empty. intros s s' E H. inversion E as [[E1 E2 E3]]. rewrite E1, E2, E3. exact H. Qed.
+Lemma dsf_write X D0 R0 w vi s : DSF X D0 R0 s -> vi_dshares vi = X w -> DSF X D0 R0 (set_valinfos (kset (valinfos s) [w] vi) s).
+Proof.
+  intros (Hs & HX & HD & HR) Hv. split; cbn [valinfos set_valinfos]; [apply ksorted_kset; exact Hs|]. split; [|split; assumption].
+  intros w'. unfold vinfo_or_empty. cbn [valinfos set_valinfos].
+  destruct (Z.eq_dec w' w) as [->|Hne]; [rewrite kget_kset_same; exact Hv|].
+  rewrite kget_kset_other by (auto; congruence). apply HX.
+Qed.
+
+Theorem slash_without_pending_redelegations_leaves_positions s v f s' :
+  ksorted (valinfos s) -> kfilter (kprefix [v]) (redelidx s) = [] ->
+  slash_validator v f s = Ok tt s' ->
+  delegations s' = delegations s /\ forall w, vi_dshares (vinfo_or_empty s' w) = vi_dshares (vinfo_or_empty s w).
+Proof.
+  intros Hsv Hidx Hrun.
+  set (X := fun w => vi_dshares (vinfo_or_empty s w)).
+  assert (H0 : DSF X (delegations s) (redelidx s) s) by (repeat split; auto).
+  unfold slash_validator in Hrun. destruct ((f <=? 0) || (ONE <? f)); [discriminate|].
+  unfold bind at 1 in Hrun.
+  assert (G : match get_alliance_validator v s with
+              | Ok r s1 => DSF X (delegations s) (redelidx s) s1 /\ vi_dshares (snd r) = X v | _ => True end).
+  { unfold get_alliance_validator, bind, gets. destruct (kget (svals s) [v]); cbn; [|exact I].
+    destruct (kget (valinfos s) [v]) as [vi|] eqn:E; cbn.
+    - split; [exact H0|]. subst X. cbn beta. unfold vinfo_or_empty. rewrite E. reflexivity.
+    - assert (Hx : X v = []) by (subst X; cbn beta; unfold vinfo_or_empty; rewrite E; reflexivity).
+      split; [apply dsf_write; [exact H0 | symmetry; exact Hx] | symmetry; exact Hx]. }
+  destruct (get_alliance_validator v s) as [[sv vi] s1|e s1|e s1]; try discriminate.
+  destruct G as [H1 Hvi]. cbn [snd] in Hvi.
+  unfold bind at 1 in Hrun.
+  assert (L : inv (DSF X (delegations s) (redelidx s)) (mfold (vi_vshares vi) [] (slash_body f))) by (unfold slash_body; inv_deep (DSF_f X (delegations s) (redelidx s))).
+  specialize (L s1 H1).
+  change (mfold (vi_vshares vi) [] (slash_body f) s1) with
+    (mfold (vi_vshares vi) [] (fun (acc : Coins) (da : Z * Z) =>
+       let to_slash := dmul (snd da) f in
+       (if snd da - to_slash <? 0 then panic P_NEG_COIN else ret tt) ;;;
+       oa <- get_asset (fst da) ;;
+       match oa with
+       | None => fail E_UNKNOWN_ASSET
+       | Some a => set_asset (set_a_vshares (a_vshares a - to_slash) a) ;;; ret (cadd1 acc (fst da) (snd da - to_slash))
+       end) s1) in L.
+  destruct (mfold (vi_vshares vi) [] _ s1) as [vs' s2|e s2|e s2]; try discriminate.
+  unfold bind at 1 in Hrun. unfold set_valinfo at 1, modify in Hrun.
+  set (s3 := set_valinfos (kset (valinfos s2) [v] (set_vi_vshares vs' vi)) s2) in Hrun.
+  assert (H3 : DSF X (delegations s) (redelidx s) s3) by (apply dsf_write; [exact L | exact Hvi]).
+  unfold bind at 1 in Hrun.
+  (* no index key of v: the loop over pending redelegations has nothing to walk *)
+  assert (R : slash_redelegations v f s3 = Ok tt s3).
+  { unfold slash_redelegations, bind, gets. destruct H3 as (_ & _ & _ & HR). rewrite HR, Hidx. reflexivity. }
+  rewrite R in Hrun.
+  assert (U : inv (DSF X (delegations s) (redelidx s)) (slash_undelegations v f)) by (inv_deep (DSF_f X (delegations s) (redelidx s))).
+  specialize (U s3 H3). rewrite Hrun in U. destruct U as (_ & HX' & HD' & _).
+  split; [exact HD' | exact HX'].
+Qed.
